@@ -167,6 +167,16 @@ class C10(Base):
         ids = ["k0", "k1", "k255", "k256", "k65535", "k65536", "k65537", "k65539", "s0", "s1", "s39", "s49"]
         yield "reg add:%s;add:%s;%s" % (big, small, ";".join(look(ids)))
         yield "reg addov:%s;addov:%s;%s" % (small, big, ";".join(look(ids)))
+        # MANY duplicates in one resource (more Overriding errors than any small cap), fresh ids before, between and
+        # behind them; then the same through add_resource_overriding, and a redefinition of the fresh ids
+        for n in (9, 17, 33, 34, 65, 130):
+            first = ",".join("m/%s/%s/" % (hx("d%d" % i), hx("v%d" % i)) for i in range(n))
+            second = ",".join(["m/%s/%s/" % (hx("f0"), hx("new0"))]
+                              + ["%s/%s/%s/" % ("t" if i % 5 == 0 else "m", hx("d%d" % i), hx("w%d" % i)) for i in range(n)]
+                              + ["m/%s/%s/" % (hx("f1"), hx("new1"))])
+            ids = ["d0", "d1", "d%d" % (n - 1), "f0", "f1"]
+            yield "reg add:%s;add:%s;%s;add:m/%s/%s/;%s" % (first, second, ";".join(look(ids)), hx("f1"), hx("again"), ";".join(look(["f1"])))
+            yield "reg add:%s;addov:%s;%s" % (first, second, ";".join(look(ids)))
         many = ";".join("%s:m/%s/%s/" % ("add" if i % 2 else "addov", hx("r%d" % i), hx("x%d" % i)) for i in range(300))
         yield "reg %s;%s" % (many, ";".join(look(["r0", "r1", "r254", "r255", "r256", "r257", "r299"])))
 
